@@ -212,8 +212,9 @@ func (env *Env) Run(c *Case) *Result {
 	hook := func(p string) {
 		reachedMu.Lock()
 		reached[p]++
+		nth := reached[p]
 		reachedMu.Unlock()
-		if a, ok := c.Sched.Hook[p]; ok {
+		if a, ok := c.Sched.Hook[p]; ok && (a.First <= 0 || nth <= a.First) {
 			switch a.Action {
 			case "gosched":
 				for i := 0; i < a.N; i++ {
